@@ -31,7 +31,16 @@ func (fr *frame) exec(instr ssa.Instruction, st *State) {
 		}
 		if obj := x.Object(); obj != nil {
 			if _, isVar := obj.(*types.Var); isVar {
-				if _, known := fr.vals[x.X]; known || isConstLike(x.X) {
+				if x.IsAddr {
+					// address-taken variable (captured by a closure, named result): the name denotes
+					// the content of its cell
+					if al, ok := x.X.(*ssa.Alloc); ok {
+						if fr.cells == nil {
+							fr.cells = map[string]*ssa.Alloc{}
+						}
+						fr.cells[obj.Name()] = al
+					}
+				} else if _, known := fr.vals[x.X]; known || isConstLike(x.X) {
 					fr.names[obj.Name()] = append(fr.names[obj.Name()], x.X)
 				}
 			}
@@ -47,6 +56,16 @@ func (fr *frame) exec(instr ssa.Instruction, st *State) {
 		}
 		fx.storeVal(st, p, g.zero(t))
 		fr.vals[x] = p
+		fx.noteObj(p)
+		if x.Comment != "" && !strings.ContainsAny(x.Comment, " .()") {
+			// a named local that lives in a cell (captured by a closure, named result, address taken)
+			if fr.cells == nil {
+				fr.cells = map[string]*ssa.Alloc{}
+			}
+			if _, dup := fr.cells[x.Comment]; !dup {
+				fr.cells[x.Comment] = x
+			}
+		}
 	case *ssa.FieldAddr:
 		p := fr.val(x.X).(PtrV)
 		if p.Local == nil {
@@ -718,23 +737,7 @@ func (fr *frame) checkFrame(st *State, p PtrV, pos token.Position) {
 	if c == nil {
 		return
 	}
-	// allowed if the object was allocated during this call
 	freshObj := app(">=", app("birth", p.Addr), fx.pre.now)
-	var allowed []string
-	allowed = append(allowed, freshObj)
-	for _, m := range c.Modifies {
-		for _, l := range fx.modLocs(fx.fn, c, m, nil, fx.pre) {
-			for _, lf := range fx.g.leaves(p.Elem) {
-				if l.leaf == p.HT+p.Path+lf.Path {
-					if l.addr == "" {
-						allowed = append(allowed, "true")
-					} else {
-						allowed = append(allowed, eq(l.addr, p.Addr))
-					}
-				}
-			}
-		}
-	}
 	// all leaves of p.Elem must be covered: we require that each leaf individually is allowed
 	for _, lf := range fx.g.leaves(p.Elem) {
 		leaf := p.HT + p.Path + lf.Path
@@ -743,9 +746,12 @@ func (fr *frame) checkFrame(st *State, p PtrV, pos token.Position) {
 		for _, m := range c.Modifies {
 			for _, l := range fx.modLocs(fx.fn, c, m, nil, fx.pre) {
 				if l.leaf == leaf {
-					if l.addr == "" {
+					switch {
+					case l.addr == "" && l.except == "":
 						al = append(al, "true")
-					} else {
+					case l.addr == "":
+						al = append(al, eq(l.except, p.Addr))
+					default:
 						al = append(al, eq(l.addr, p.Addr))
 					}
 				}
@@ -755,7 +761,7 @@ func (fr *frame) checkFrame(st *State, p PtrV, pos token.Position) {
 		if goal == "true" {
 			continue
 		}
-		fx.s.oblig("frame", "", append([]string{"C18", "frame"}, c.Props...), st.reach, goal, pos, "store to "+leaf+" outside modifies")
+		fx.s.oblig("frame", "", []string{"C18", "frame"}, st.reach, goal, pos, "store to "+leaf+" outside modifies")
 	}
 }
 
